@@ -180,8 +180,18 @@ def _struct_time(seconds):
     return time.struct_time((y, mo, d, h, mi, s, (days + 3) % 7, yday, 0))
 
 
+def _struct_time_gmtoff(seconds, gmtoff):
+    """an 11-field struct_time as time.localtime() / strptime('%z') produce: the visible
+    fields are what counts ('read as UTC'), tm_gmtoff is along for the ride"""
+    st9 = _struct_time(seconds)
+    return time.struct_time(tuple(st9) + ('XYZ', gmtoff))
+
+
 def struct_times():
-    return epoch_seconds_st().map(_struct_time)
+    return st.one_of(
+        epoch_seconds_st().map(_struct_time),
+        st.builds(_struct_time_gmtoff, epoch_seconds_st(),
+                  st.sampled_from([0, 3600, -18000, 19800, 50400, -43200, 1])))
 
 
 # ---------------------------------------------------------------- field values
@@ -379,6 +389,15 @@ def header_cases():
                                   'body_size': BODY_SIZES, 'ch': CHANNELS})
 
 
+def big_header_cases():
+    """content headers whose payload crosses 64 KiB / 128 KiB (a long header value)"""
+    sizes = st.sampled_from([65000, 65536, 131000, 131040, 131072, 131100, 140000,
+                             200000])
+    return st.builds(
+        lambda c, n, key: dict(c, props=dict(c['props'], headers={key: 'h' * n})),
+        header_cases(), sizes, table_keys())
+
+
 # ---------------------------------------------------------------- bodies etc.
 
 def bodies(max_len=131072):
@@ -403,12 +422,19 @@ def bodies(max_len=131072):
 
 def any_frame_cases(big_bodies=True):
     """case = {'kind': ..., ...} for all five frame kinds"""
+    big = []
+    if big_bodies:       # frames of every kind beyond 64 KiB / 128 KiB, not only bodies
+        big = [st.one_of(
+            method_cases(table_leaves=4, big=True).map(
+                lambda c: dict(c, kind='method')),
+            big_header_cases().map(lambda c: dict(c, kind='header')))]
     return st.one_of(
         method_cases(table_leaves=5, big=False).map(
             lambda c: dict(c, kind='method')),
         method_cases(table_leaves=5, big=False).map(
             lambda c: dict(c, kind='method')),
         header_cases().map(lambda c: dict(c, kind='header')),
+        *big,
         st.fixed_dictionaries({'kind': st.just('body'),
                                'data': bodies(131072 if big_bodies else 600),
                                'ch': CHANNELS}),
